@@ -272,6 +272,18 @@ func main() {
 			var c Case
 			_ = report.Recase(raw, &c)
 			var st stats
+			if c.Family == "exact-fit" {
+				for i := range exactFitProgs {
+					if exactFitProgs[i].name == c.Kind {
+						fails, obs := runExactFit(i, &st)
+						fmt.Printf("exact-fit program %s\n%s  observed: %s\n", c.Kind, exactFitProgs[i].src, obs)
+						for _, f := range fails {
+							fmt.Printf("  FAIL %s: %s\n", f.sig, f.what)
+						}
+					}
+				}
+				continue
+			}
 			if c.Family == "files" {
 				for _, fp := range fileProgs {
 					if fp.name == c.Kind {
@@ -372,6 +384,16 @@ func main() {
 		r.Count("programs/files", 1)
 		for _, fl := range fails {
 			r.Violation(fl.sig, fl.what, Case{Family: "files", Kind: fp.name})
+		}
+	}
+	for i := range exactFitProgs {
+		fails, obs := runExactFit(i, &st)
+		atomic.AddInt64(&evals, 1)
+		distinct.Add("exact-fit/" + exactFitProgs[i].name)
+		r.Outcome("exact-fit/" + obs)
+		r.Count("programs/exact-fit", 1)
+		for _, fl := range fails {
+			r.Violation(fl.sig, fl.what, Case{Family: "exact-fit", Kind: exactFitProgs[i].name})
 		}
 	}
 	r.Set("constants_seen", st.consts)
